@@ -168,7 +168,7 @@ class Scheduler(Subject):
             if start_event in self.awaited_events:
                 # set the flag first: the order may already finish inside this call
                 self.running = True
-                self.fire_event(start_event)
+                self._fire_event(start_event)
             return True
         return False
 
@@ -181,10 +181,18 @@ class Scheduler(Subject):
         Args:
             event: An `Event` instance.
 
+        Only events that report a finished service are accepted here: the start event
+        and the events that mark a place are internal to the scheduler.
+
         Returns:
             True if the event could be fired to the petri net (is an awaited event).
         """
+        if event.event_type != SERVICE_FINISHED:
+            return False
+        return self._fire_event(event)
 
+    def _fire_event(self, event: Event) -> bool:
+        """Forwards an awaited event (also an internal one) to the PetriNetLogic instance."""
         if event in self.awaited_events:
             # stop awaiting the event before it is forwarded: while the net is evaluated
             # (callbacks may call fire_event again) a duplicate must not be accepted
@@ -379,11 +387,11 @@ class Scheduler(Subject):
         if self.check_expression(condition.expression, task_context):
             awaited_event = Event(event_type=SET_PLACE, data={"place_uuid": then_uuid})
             self.awaited_events.append(awaited_event)
-            self.fire_event(awaited_event)
+            self._fire_event(awaited_event)
         else:
             awaited_event = Event(event_type=SET_PLACE, data={"place_uuid": else_uuid})
             self.awaited_events.append(awaited_event)
-            self.fire_event(awaited_event)
+            self._fire_event(awaited_event)
 
     def on_while_loop_started(
         self, loop: WhileLoop, then_uuid: str, else_uuid: str, task_context: TaskAPI
@@ -392,11 +400,11 @@ class Scheduler(Subject):
         if self.check_expression(loop.expression, task_context):
             awaited_event = Event(event_type=SET_PLACE, data={"place_uuid": then_uuid})
             self.awaited_events.append(awaited_event)
-            self.fire_event(awaited_event)
+            self._fire_event(awaited_event)
         else:
             awaited_event = Event(event_type=SET_PLACE, data={"place_uuid": else_uuid})
             self.awaited_events.append(awaited_event)
-            self.fire_event(awaited_event)
+            self._fire_event(awaited_event)
 
     def on_counting_loop_started(
         self, loop: CountingLoop, then_uuid: str, else_uuid: str, task_context: TaskAPI
@@ -420,7 +428,7 @@ class Scheduler(Subject):
             awaited_event = Event(event_type=SET_PLACE, data={"place_uuid": then_uuid})
             self.awaited_events.append(awaited_event)
 
-            self.fire_event(awaited_event)
+            self._fire_event(awaited_event)
         else:
             # the loop is left: it has to count from 0 again when it is reached the next time
             del self.loop_counters[task_context.uuid][loop]
@@ -429,7 +437,7 @@ class Scheduler(Subject):
             self.awaited_events.append(awaited_event)
 
             # has to be executed at last
-            self.fire_event(awaited_event)
+            self._fire_event(awaited_event)
 
     def on_parallel_loop_started(
         self,
